@@ -60,6 +60,7 @@ type Config struct {
 	MaxDepth int
 	MaxSteps int
 	PoisonAtSinks bool
+	CheckCallABI  bool // calling a definition through a different signature / ABI attributes is UB
 }
 
 type Exec struct {
